@@ -1,7 +1,16 @@
+# io::Error's drop glue is recursive through `Box<dyn Error>` (Kani over-approximates the drop candidates of the
+# trait object, among them a type that again holds an io::Error). The harness filesystem only ever builds errors
+# from an `io::ErrorKind` (no heap payload), so the recursive arm is infeasible; without a cap CBMC nevertheless
+# unwinds it `unwind` levels deep at every drop site (measured: 25 GB / no verdict in 17 min). The cap keeps the
+# unwinding assertion: a reachable second level would make the harness inconclusive, never pass.
+# The symbol is instantiated inside std, so it only depends on the toolchain.
+_IOERR_DROP = "_RINvNtCs8xvirJzNMvV_4core3ptr9drop_glueNtNtNtB4_2io5error5ErrorECs3GJ6w2eqr8A_3std"
+
 GROUP = {
     # emit_file (default-features = false) + injected `verif` module (stubs/file.toml)
     "stub_sets": ["file"],
     "kani_args": ["-Z", "stubbing"],
     # modules of the harness crate whose items the generated playback tests need in scope
-    "modules": ["hfs", "c10_write", "c10_batch", "c11_retention", "c11_member", "c11_name"],
+    "modules": ["hfs", "c10_write"],
+    "cbmc_args": [(r".", ["--unwindset", _IOERR_DROP + ":1"])],
 }
